@@ -6,8 +6,10 @@ import LivesimVerif.Props.C04
 `genTimeline` models `generateTimelineEntries` (with the `fix:` commits: one floor conversion, carry into the next
 loop), `checkTime` the segment handler's availability test.  Hypotheses: `Contig r`, `Closes a r` (C01) and
 `a.loopMS * r.T = 1000 * r.dur` (what `consolidateAsset` admits).  `x = nowMS − 1000·startS`.
-Partial: the *first* listed entry is proved to be a real output segment, but "served (not yet Gone)" for it needs
-`segment duration ≤ 10 s` and is covered by the correspondence/monitors only (known finding F-C02-1 for 12 s segments).
+The last listed entry is the newest ended segment (`c02_last_entry_newest_ended`); the first listed entry is not yet
+Gone when no segment is longer than the handler's 10 s margin (`c02_first_entry_not_gone`), and the hypothesis is
+needed: `c02_first_entry_gone_counterexample` is known finding F-C02-1 (12 s segments), decided in the model and
+reproduced on the implementation by the monitor.
 -/
 namespace Core
 
@@ -104,6 +106,92 @@ theorem c02_last_entry_newest_ended (a : Asset) (r : Rep) (h : Contig r) (hc : C
   · exact Or.inl ⟨he, tau_early a r startS nowMS tsbdS atoMS 0 hnow ht⟩
   · exact Or.inr ⟨k, hk, hne, tau_not_early a r startS nowMS tsbdS atoMS k hnow h1,
       tau_early a r startS nowMS tsbdS atoMS (k + 1) hnow h2⟩
+
+def now_bound (now tsbd startS ato T Es : Nat) : Prop :=
+  now * T + ato * T < (Es + startS * T) * 1000 + (tsbd * T + 10 * T) * 1000
+
+theorem first_bound (now xs tsbd startS ato T Es D : Nat) (h1 : now ≤ xs + tsbd * 1000 + startS * 1000)
+    (h2 : (xs + ato) * T < (Es + D) * 1000) (hD : D ≤ 10 * T) : now_bound now tsbd startS ato T Es := by
+  unfold now_bound
+  have h3 : now * T ≤ xs * T + tsbd * T * 1000 + startS * T * 1000 := by
+    have := Nat.mul_le_mul_right T h1
+    have e : (xs + tsbd * 1000 + startS * 1000) * T = xs * T + tsbd * T * 1000 + startS * T * 1000 := by
+      rw [Nat.add_mul, Nat.add_mul, Nat.mul_right_comm tsbd, Nat.mul_right_comm startS]
+    omega
+  rw [Nat.add_mul] at h2
+  generalize now * T = A at *
+  generalize xs * T = B at *
+  generalize ato * T = C at *
+  generalize tsbd * T = F at *
+  generalize startS * T = G at *
+  omega
+
+theorem not_gone_of_bound (avail now tsbd startS ato T : Nat) (hb : now_bound now tsbd startS ato T avail) :
+    ¬ nowScaled now T > availScaled (avail + startS * T) T ato + windowScaled tsbd T := by
+  unfold now_bound at hb
+  unfold nowScaled availScaled windowScaled marginS
+  rw [Int.mul_right_comm (((tsbd + 10 : Nat) : Int)) 1000 (T : Int), ← Int.natCast_mul (tsbd + 10) T, ← Int.natCast_mul now T,
+    ← Int.natCast_mul ato T, Nat.add_mul tsbd 10 T]
+  generalize now * T = A at *
+  generalize ato * T = C at *
+  generalize tsbd * T = F at *
+  generalize startS * T = G at *
+  omega
+
+/-- **The first SegmentTimeline entry is not older than the time-shift window allows**: when no segment of the
+representation is longer than the handler's margin (`timeShiftBufferDepthMarginS` = 10 s), the first listed number is a
+segment the handler does not answer with 410 at that instant.  (For longer segments the statement is false: known
+finding F-C02-1, 12 s segments.) -/
+theorem c02_first_entry_not_gone (a : Asset) (r : Rep) (h : Contig r) (hc : Closes a r)
+    (hadm : a.loopMS * r.T = 1000 * r.dur) (hl : 0 < a.loopMS)
+    (startS nowMS tsbdS atoMS : Nat) (hnow : startS * 1000 ≤ nowMS)
+    (hdur : ∀ k, segDur r k ≤ marginS * r.T)
+    (hne : (genTimeline r (calcWrapTimes a startS nowMS tsbdS) atoMS).entries ≠ []) :
+    ∃ s : Nat, (genTimeline r (calcWrapTimes a startS nowMS tsbdS) atoMS).startNr = (s : Int) ∧
+      checkTime (E a r s + startS * r.T) r.T nowMS tsbdS (.ms atoMS) ≠ .gone := by
+  obtain ⟨s, xs, hs, hlo, hedge⟩ := genTimeline_first a r h hc hadm hl startS nowMS tsbdS atoMS hnow hne
+  refine ⟨s, hs, ?_⟩
+  have hdm := Nat.div_add_mod ((xs + atoMS) * r.T) 1000
+  have hml := Nat.mod_lt ((xs + atoMS) * r.T) (by decide : 0 < 1000)
+  have hb : now_bound nowMS tsbdS startS atoMS r.T (E a r s) := by
+    rcases hedge with ⟨h0, hs0⟩ | ⟨_, h2⟩
+    · subst hs0
+      exact first_bound nowMS xs tsbdS startS atoMS r.T (E a r 0) 0 hlo (by omega) (by omega)
+    · have hd := hdur (s + 1)
+      have hE : E a r (s + 1) = E a r s + segDur r (s + 1) := E_succ a r h hc s
+      unfold marginS at hd
+      exact first_bound nowMS xs tsbdS startS atoMS r.T (E a r s) (segDur r (s + 1)) hlo (by omega) hd
+  have hng := not_gone_of_bound (E a r s) nowMS tsbdS startS atoMS r.T hb
+  intro hg
+  rcases checkTime_cases (E a r s + startS * r.T) r.T nowMS tsbdS atoMS with ⟨_, hp⟩ | ⟨_, _, hp⟩ | ⟨hgt, _⟩
+  · rw [hg] at hp; simp [phase] at hp
+  · rw [hg] at hp; cases hp
+  · exact hng hgt
+
+/-- a representation with 12 s segments (the generated asset `gen_12s`: 25 Hz, two segments of 300 ticks) -/
+def ex12Rep : Rep where
+  id := "V"
+  kind := .video
+  T := 25
+  segs := [⟨0, 300, 1⟩, ⟨300, 600, 2⟩]
+  constSampleDur := 1
+  sampleDur := 1
+  preEnc := false
+  stpp := false
+
+def ex12Asset : Asset where
+  name := "gen_12s"
+  loopMS := 24000
+  segDurMS := 12000
+  refId := "V"
+  reps := [ex12Rep]
+
+/-- **The hypothesis of `c02_first_entry_not_gone` is needed** (known finding F-C02-1): with 12 s segments, at
+131.9 s with a 60 s window the first listed number is 4 — the segment [48 s, 60 s) — which the handler answers with
+410 (it ended more than 60 + 10 s ago), while the next segment has not ended at the window start 71.9 s. -/
+theorem c02_first_entry_gone_counterexample :
+    (genTimeline ex12Rep (calcWrapTimes ex12Asset 0 131900 60) 0).startNr = 4 ∧
+    checkTime (E ex12Asset ex12Rep 4 + 0 * ex12Rep.T) ex12Rep.T 131900 60 (.ms 0) = .gone := by decide
 
 /-- non-vacuity: testpic_2s V300 at 100.3 s after start, no offset: the edge search returns segment 49
 (`w' = 12, i = 1`): `[98 s, 100 s)` has ended, `[100 s, 102 s)` has not. -/
